@@ -6,7 +6,7 @@ from typing import List, Optional, Tuple
 from .. import terms as tm
 from ..interp import Interp, Result
 from ..lib import comparisons, fmt, index_position, index_source, \
-    is_call_to, norm_cmp, per_element
+    is_call_to, norm_cmp, per_element, sweep
 from ..terms import T, const
 from .c11 import _conj, _ite_chain
 
@@ -63,7 +63,8 @@ MANIFEST = dict(
               "+ argument provenance",
 )
 FLOORS = {"C10.1": 3, "C10.2": 2, "C10.3": 4, "C10.4": 2, "C10.5": 1,
-          "C10.6": 12, "C10.7": 4, "C10.8": 6}
+          "C10.6": 12, "C10.7": 4, "C10.8": 6, "C10.9": 2,
+          "C10.10": 1}
 
 FI = "evo.core.filters.filter_pairs_by_index"
 FP = "evo.core.filters.filter_pairs_by_path"
@@ -96,6 +97,52 @@ def check(ctx):
     _by_path(ctx, prog)
     _by_angle(ctx, prog)
     _dispatch(ctx, prog)
+    _callers(ctx, prog)
+    from .c11 import accumulated_distances_rule
+    accumulated_distances_rule(ctx, "C10.10")
+
+
+def _callers(ctx, prog):
+    """C10.9: "every i that has such a j is reported" / "a delta for which no
+    pair exists is reported as evo's filter error" also bind the callers of
+    id_pairs_from_delta: whether pairs exist is decided by the selection, so
+    nothing on the way to it may refuse a request on grounds of delta or the
+    trajectory's extent (a tolerance band can admit pairs an a-priori test
+    rules out)."""
+    for q, res in sorted(sweep(prog, "plain").items()):
+        calls = res.calls(IDP)
+        if not calls:
+            continue
+        f = res.func
+        ctx.analysed_fn(q)
+        first = min(e.idx for e in calls)
+        pre = [e for e in res.of_kind("raise") if e.idx < first and
+               e.depth == 0]
+        early = [e for e in pre if
+                 "FilterException" in (e.data.get("exc_name") or "") or any(
+                     x.op == "attr" and x.args[1] in (
+                         "delta", "path_length", "distances", "rel_delta_tol")
+                     for a in tm.atoms(e.live) for x in a.walk())]
+        ctx.ob("C10.9", early[0] if early else calls[0], not early,
+               f"{q}: nothing before the pair selection refuses a request "
+               f"because of delta or the path's extent "
+               f"({len(pre)} input-shape guards)" if not early else
+               f"{q}: raises at {early[0].where} before id_pairs_from_delta "
+               f"is asked, depending on delta / the path's extent "
+               f"({fmt(early[0].live)[:100]}): requests for which the "
+               f"selection would find pairs (e.g. within the tolerance "
+               f"band) are refused", key=f"C10.9:{q}:no-early-refusal")
+        for e in calls:
+            b = e.data["bound"] or {}
+            ok = all(k in b for k in ("poses", "delta", "delta_unit",
+                                      "rel_tol", "all_pairs"))
+            ctx.ob("C10.9", e, ok,
+                   f"{q}: delta, unit, tolerance and pairing mode all reach "
+                   f"the selection" if ok else
+                   f"{q}: id_pairs_from_delta is called without "
+                   f"{[k for k in ('poses', 'delta', 'delta_unit', 'rel_tol', 'all_pairs') if k not in b]}"
+                   f" (callee defaults apply)",
+                   key=f"C10.9:{q}:arguments")
 
 
 def _by_index(ctx, prog):
